@@ -511,7 +511,28 @@ def lineCache (line : String) : Option Nat :=
   | "F" :: i :: _ => i.toNat?
   | _ => none
 
+/-- light lines show their cache too (for the `ar=ovf` case) -/
+def lineCacheAny (line : String) : Option Nat :=
+  let opPart := (line.trimAscii.toString.splitOn " | ").headD ""
+  match opPart.splitOn " " with
+  | _ :: "new" :: _ => none
+  | _ :: "clone" :: _ => none
+  | _ :: "clonefrom" :: _ => none
+  | _ :: "drop" :: _ => none
+  | _ :: i :: _ => i.toNat?
+  | _ => none
+
 def resync (s : St) (line obs : String) : St :=
+  if obs == "ar=ovf" then
+    -- the real code panicked inside the crate although the model saw no failing arithmetic step: the harness
+    -- has emptied that cache (`clear`), so does the model
+    match lineCacheAny line with
+    | none => s
+    | some i =>
+      match s.get? i with
+      | some (c, _) => s.set i (some ({ c with entries := [], cur := 0, shape := c.shape.cleared }, none))
+      | none => s
+  else
   match lineCache line with
   | none => s
   | some i =>
